@@ -86,3 +86,42 @@ if first4:
     md2 = open(os.path.join(root, 'DETECTION.md')).read().split('\n## 4. ')[0].rstrip() + '\n'
     open(os.path.join(root, 'DETECTION.md'), 'w').write(md2 + "\n".join(out))
     print("\n".join(out[-3:]))
+
+# ---- section 5: round 5 (I, J)
+def rows5(path):
+    out = {}
+    if not os.path.exists(path):
+        return out
+    for l in open(path, errors='replace'):
+        m = re.match(r'^(C\d\d-[IJ]): FIRED:(.*?) \| silent:(.*)$', l.strip())
+        if not m:
+            continue
+        ids, sig = [], {}
+        for pid, s_ in re.findall(r'(C\d\d)\(signature=([^)]*)\)?', m.group(2)):
+            if pid not in ids:
+                ids.append(pid)
+                sig[pid] = s_
+        out[m.group(1)] = (ids, sig)
+    return out
+first5 = rows5(os.path.join(root, 'validation-logs/seed_matrix7.log'))
+final5 = rows5(os.path.join(root, 'validation-logs/recheck_round5.log'))
+if first5:
+    out = ['', '## 5. Changes seeded by sub-agents, round 5 (I, J)', '',
+           'Twelve changes for C02 C04 C05 C07 C08 C12. `first pass` = harness frozen at the end of round 4 (`seed_matrix7.log`); `harness as it stands` = `recheck_round5.log`.', '',
+           '| change | target | first pass: target fired? | first pass: all checks that fired | harness as it stands: target | signature reported by the target check |', '|---|---|---|---|---|---|']
+    nt = nf = na = 0
+    for name in sorted(first5):
+        t = name[:3]
+        ids, sig = first5[name]
+        hit = t in ids
+        nt += hit
+        na += bool(ids)
+        fids, fsig = final5.get(name, ([], {}))
+        fin = 'fires' if t in fids else ('**silent**' if name in final5 else 'not re-run')
+        nf += t in fids
+        s_ = fsig.get(t) or sig.get(t) or ''
+        out.append('| %s | %s | %s | %s | %s | `%s` |' % (name, t, 'yes' if hit else '**no**', ' '.join(ids) or '**none**', fin, s_[:80]))
+    out += ['', 'Totals over %d changes: first pass - target check fired for %d, some check fired for %d; with the harness as it stands the target check fires for %d.' % (len(first5), nt, na, nf), '']
+    md3 = open(os.path.join(root, 'DETECTION.md')).read().split('\n## 5. ')[0].rstrip() + '\n'
+    open(os.path.join(root, 'DETECTION.md'), 'w').write(md3 + "\n".join(out))
+    print("\n".join(out[-3:]))
